@@ -1164,7 +1164,14 @@ impl<'a> RtWorld<'a> {
         self.actors.clear();
         let rt = self.rt;
         let raw = self.raw;
-        settle(rt, Duration::from_millis(20), || !fd_is_open(raw));
+        drive(rt);
+        drive(rt);
+        if fd_is_open(raw) {
+            // anything still queued on the blocking pool (a close, a cancelled read) must have run before
+            // the descriptor is judged leaked
+            pool_barrier(rt);
+            settle(rt, Duration::from_micros(200), || !fd_is_open(raw));
+        }
         if !self.observe_closed() {
             if self.dropped_unpolled_close {
                 ex.fail(
@@ -1187,8 +1194,12 @@ impl<'a> RtWorld<'a> {
 }
 
 fn exec_rt(case: &Case, iour: bool, kind: &str, ex: &mut Exec) {
+    let tt = std::time::Instant::now();
     let r = with_rt(iour, |rt| {
         let before = open_fds();
+        if std::env::var_os("C06_TIME").is_some() {
+            eprintln!("T pre-open_fds {:?}", tt.elapsed());
+        }
         let Some(mut w) = RtWorld::new(rt, kind) else {
             for _ in &case.lines {
                 ex.out.push("bad-op".into());
@@ -1200,6 +1211,7 @@ fn exec_rt(case: &Case, iour: bool, kind: &str, ex: &mut Exec) {
         let mut kinds = std::collections::BTreeSet::new();
         for l in &case.lines[1..] {
             let ws: Vec<&str> = l.split_whitespace().collect();
+            let t0 = std::time::Instant::now();
             match w.event(&ws, ex) {
                 Some(o) => {
                     kinds.insert(ws[0].to_string());
@@ -1207,8 +1219,15 @@ fn exec_rt(case: &Case, iour: bool, kind: &str, ex: &mut Exec) {
                 }
                 None => ex.out.push("rej".into()),
             }
+            if std::env::var_os("C06_TIME").is_some() {
+                eprintln!("T {} {:?}", ws[0], t0.elapsed());
+            }
         }
+        let t0 = std::time::Instant::now();
         w.finish(ex);
+        if std::env::var_os("C06_TIME").is_some() {
+            eprintln!("T finish {:?}", t0.elapsed());
+        }
         drive(rt);
         let after = open_fds();
         if before != after {
@@ -1225,6 +1244,9 @@ fn exec_rt(case: &Case, iour: bool, kind: &str, ex: &mut Exec) {
         for _ in &case.lines {
             ex.out.push(format!("no-runtime {e}"));
         }
+    }
+    if std::env::var_os("C06_TIME").is_some() {
+        eprintln!("T whole-case {:?}", tt.elapsed());
     }
 }
 
@@ -1901,28 +1923,39 @@ fn exec(case: &Case) -> Exec {
         eprintln!("#case {}\n{}", case.name, case.lines.join("\n"));
     }
     let head: Vec<&str> = case.lines.first().map(|l| l.split_whitespace().collect()).unwrap_or_default();
-    match head.as_slice() {
-        ["sfd", "unsync"] => exec_sfd::<compio_driver::SharedFd<Tracked>>(case, false, &mut ex),
-        ["sfd", "sync"] => exec_sfd::<fd_sync::SharedFd<Tracked>>(case, true, &mut ex),
-        ["rt", d @ ("iour" | "poll"), kind] => exec_rt(case, *d == "iour", kind, &mut ex),
-        ["prod", d @ ("iour" | "poll"), kind] => exec_prod(case, *d == "iour", kind, &mut ex),
+    let r = catch(|| exec_inner(case, &head, &mut ex));
+    if let Err(m) = r {
+        ex.fail("C06:panic", format!("panic while running the case: {m}"));
+        ex.out.truncate(case.lines.len());
+        while ex.out.len() < case.lines.len() {
+            ex.out.push("panic".into());
+        }
+    }
+    ex
+}
+
+fn exec_inner(case: &Case, head: &[&str], ex: &mut Exec) {
+    let mut pad = |ex: &mut Exec| {
+        for _ in 1..case.lines.len() {
+            ex.out.push("bad-op".into());
+        }
+    };
+    match head {
+        ["sfd", "unsync"] => exec_sfd::<compio_driver::SharedFd<Tracked>>(case, false, ex),
+        ["sfd", "sync"] => exec_sfd::<fd_sync::SharedFd<Tracked>>(case, true, ex),
+        ["rt", d @ ("iour" | "poll"), kind] => exec_rt(case, *d == "iour", kind, ex),
+        ["prod", d @ ("iour" | "poll"), kind] => exec_prod(case, *d == "iour", kind, ex),
         ["fallback", ..] => {
-            exec_fallback(case, &mut ex);
-            for _ in 1..case.lines.len() {
-                ex.out.push("bad-op".into());
-            }
+            exec_fallback(case, ex);
+            pad(ex);
         }
         ["stress", ..] => {
-            exec_stress(case, &mut ex);
-            for _ in 1..case.lines.len() {
-                ex.out.push("bad-op".into());
-            }
+            exec_stress(case, ex);
+            pad(ex);
         }
         ["loom", ..] => {
-            exec_loom(case, &mut ex);
-            for _ in 1..case.lines.len() {
-                ex.out.push("bad-op".into());
-            }
+            exec_loom(case, ex);
+            pad(ex);
         }
         _ => {
             for _ in &case.lines {
@@ -1930,10 +1963,32 @@ fn exec(case: &Case) -> Exec {
             }
         }
     }
-    ex
 }
 
 fn main() {
+    if std::env::var_os("C06_BENCH").is_some() {
+        for iour in [true, false] {
+            with_rt(iour, |rt| {
+                let t0 = std::time::Instant::now();
+                for _ in 0..200 {
+                    drive(rt);
+                }
+                eprintln!("iour={iour} drive: {:?}", t0.elapsed() / 200);
+                let t0 = std::time::Instant::now();
+                for _ in 0..50 {
+                    pool_barrier(rt);
+                }
+                eprintln!("iour={iour} pool_barrier: {:?}", t0.elapsed() / 50);
+                let t0 = std::time::Instant::now();
+                for _ in 0..50 {
+                    let _ = open_fds();
+                }
+                eprintln!("open_fds: {:?}", t0.elapsed() / 50);
+            })
+            .unwrap();
+        }
+        return;
+    }
     selfcheck_count::<compio_driver::SharedFd<Tracked>>();
     selfcheck_count::<fd_sync::SharedFd<Tracked>>();
     run_harness(
